@@ -1,6 +1,7 @@
 package txmgr
 
 import (
+	"bytes"
 	"encoding/binary"
 	"errors"
 	"fmt"
@@ -96,6 +97,28 @@ func deleteRawUnminedInput(ns mwdb.Bucket, k []byte) error {
 		return fmt.Errorf("failed to delete unmined input: %v", err)
 	}
 	return nil
+}
+
+// removeRawUnminedInputSpender removes one spending transaction hash from the
+// list stored for an outpoint; the entry is deleted when the list gets empty.
+func removeRawUnminedInputSpender(ns mwdb.Bucket, k, spender []byte) error {
+	raw, err := ns.Get(k)
+	if err != nil {
+		return err
+	}
+	if len(raw) == 0 {
+		return nil
+	}
+	rest := make([]byte, 0, len(raw))
+	for ; len(raw) >= 32; raw = raw[32:] {
+		if !bytes.Equal(raw[:32], spender) {
+			rest = append(rest, raw[:32]...)
+		}
+	}
+	if len(rest) == 0 {
+		return deleteRawUnminedInput(ns, k)
+	}
+	return ns.Put(k, rest)
 }
 
 // fetchUnminedInputSpendTxHashes fetches the list of unmined transactions that
